@@ -162,3 +162,107 @@ def build_contract(meta_name):
                          "anything is created or written in them; nothing else is ever removed", props=["C19"]),
     ]
     return FnContract(Q + ".build", [Case(f"meta={meta_name}", make, clauses, raises=(), props=["C19", "C06"])])
+
+
+# ---- Project.__init__: names, directories, version (C16 renaming options, C19 where the output goes) --------------------------
+
+def _install_jinja_models():
+    from pyvc.libmodels import MODELS
+    import jinja2
+
+    def opaque(name):
+        def m(I, a, k):
+            o = SOpaque(name, cls=object)
+            o.attrs["kwargs"] = k
+            o.attrs["args"] = a
+            upd = lambda tag: SFunc("model", lambda I2, a2, k2: o.attrs.setdefault(tag, []).append((a2, k2)))
+            o.attrs["filters"] = SOpaque("filters", attrs={"update": upd("filters_update")})
+            o.attrs["globals"] = SOpaque("globals", attrs={"update": upd("globals_update")})
+            return o
+        return m
+    for cls in (jinja2.Environment, jinja2.PackageLoader, jinja2.ChoiceLoader, jinja2.FileSystemLoader):
+        MODELS.setdefault(cls, opaque(cls.__name__))
+
+
+def init_contract():
+    """README: `project_name_override` / `package_name_override`: if the project name is changed but no package override
+    is given, the package name is the project name with `-` replaced by `_`; `package_version_override`: if unset the
+    version of the OpenAPI document is used.  Directories: an explicit output path is the project directory; otherwise the
+    current directory / package name (meta none) or / project name; the package directory is the project directory
+    (meta none) or project directory / package name."""
+    def make(I):
+        import openapi_python_client as opc
+        from openapi_python_client.config import MetaType
+        import pathlib
+        _install_jinja_models()
+        S = z3.StringSort()
+        kebab = z3.Function("kebab_case", S, S)
+        esc = z3.Function("remove_string_escapes", S, S)
+        I.contracts["openapi_python_client.utils:kebab_case"] = lambda I2, a, k: SStr(kebab(I2.to_str_term(a[0] if a else k["value"])))
+        I.contracts["openapi_python_client.utils:remove_string_escapes"] = \
+            lambda I2, a, k: SStr(esc(I2.to_str_term(a[0] if a else k["value"])))
+        trace, world = [], {"project_dir_exists": z3.Bool("project_dir_exists")}
+        cwd = SPath(("cwd",), trace, world)
+        from pyvc.libmodels import MODELS
+        MODELS[pathlib.Path.cwd.__func__] = lambda I2, a, k: cwd
+        meta = [MetaType.NONE, MetaType.POETRY, MetaType.SETUP, MetaType.PDM, MetaType.UV][I.choose(5)] if hasattr(MetaType, "UV") \
+            else [MetaType.NONE, MetaType.POETRY, MetaType.SETUP, MetaType.PDM][I.choose(4)]
+
+        def opt(name):
+            # overrides are None or a NON-EMPTY string (an empty override is falsy and counts as unset)
+            if I.branch_free():
+                return None
+            t = z3.Const(name, S)
+            I.assume(z3.Length(t) > 0)
+            return SStr(t)
+        out = SPath(("output_path",), trace, world) if I.branch_free() else None
+        config = SOpaque("config", attrs={"project_name_override": opt("project_name_override"),
+                                          "package_name_override": opt("package_name_override"),
+                                          "package_version_override": opt("package_version_override"),
+                                          "output_path": out, "meta_type": meta, "field_prefix": "field_"})
+        openapi = SOpaque("openapi", attrs={"title": SStr(z3.Const("title", S)), "version": SStr(z3.Const("doc_version", S)),
+                                            "endpoint_collections_by_tag": SOpaque("collections")})
+        self = SObj(opc.Project, {})
+        return SFunc("pyfunc", opc.Project.__init__), [self], {"openapi": openapi, "config": config}, {
+            "self": self, "config": config, "openapi": openapi, "meta": meta, "out": out, "cwd": cwd, "MetaType": MetaType}
+
+    def names(ctx):
+        I, i = ctx.I, ctx.inputs
+        f, c = i["self"].fields, i["config"].attrs
+        pn, pk, ver = (I.to_str_term(f[k]) for k in ("project_name", "package_name", "version"))
+        conds = []
+        if c["project_name_override"] is not None:
+            conds.append(pn == c["project_name_override"].t)
+        if c["package_name_override"] is not None:
+            conds.append(pk == c["package_name_override"].t)
+        else:
+            rep = z3.Function("str_replace_all", z3.StringSort(), z3.StringSort(), z3.StringSort(), z3.StringSort())
+            conds.append(pk == rep(pn, z3.StringVal("-"), z3.StringVal("_")))
+        conds.append(ver == (c["package_version_override"].t if c["package_version_override"] is not None else i["openapi"].attrs["version"].t))
+        return z3.And(*conds)
+
+    def dirs(ctx):
+        I, i = ctx.I, ctx.inputs
+        f = i["self"].fields
+        pd, pkd = f.get("project_dir"), f.get("package_dir")
+        if not isinstance(pd, SPath) or not isinstance(pkd, SPath):
+            return False
+        none = i["meta"] is i["MetaType"].NONE
+        if i["out"] is not None:
+            if pd.parts != ("output_path",):
+                return False
+        else:
+            if pd.parts[:1] != ("cwd",) or len(pd.parts) != 2 or pd.parts[1] is not f["package_name" if none else "project_name"]:
+                return False
+        if none:
+            return pkd.parts == pd.parts
+        return pkd.parts[:-1] == pd.parts and pkd.parts[-1] is f["package_name"]
+
+    cls = [Clause("names-and-version", names,
+                  statement="project name = its override if set; package name = its override if set, else the project name with every "
+                            "'-' replaced by '_'; version = package_version_override if set, else the document's version",
+                  props=["C16"]),
+           Clause("directories", dirs,
+                  statement="project directory = the explicit output path, else cwd/package_name (meta none) or cwd/project_name; package "
+                            "directory = project directory (meta none) or project_directory/package_name", props=["C19", "C16"])]
+    return FnContract("openapi_python_client:Project.__init__", [Case("all-option-combinations", make, cls, raises=(), props=["C16", "C19"])])
